@@ -143,7 +143,8 @@ namespace
         auto arr = right.data<d_array>();
         std::array<float, 3> pos {0, 0, 0};
         std::string name;
-        if (arr->check_type(runtime, std::array<type, 2> { t_string(), t_object()}))
+        // Dispatch on the type of the second element first: check_type reports every mismatch as an error
+        if (arr->size() == 2 && arr->at(0).is<t_string>() && arr->at(1).is<t_object>())
         {
             name = arr->at(0).data<d_string, std::string>();
             auto objdata = arr->at(1).data<d_object>();
@@ -161,16 +162,16 @@ namespace
         {
             name = arr->at(0).data<d_string, std::string>();
             auto tmpArr = arr->at(1).data<d_array>();
+            if (!tmpArr->check_type(runtime, t_scalar(), 2, 3))
+            {
+                return {};
+            }
             pos = std::array<float, 3>
             {
                 tmpArr->at(0).data<d_scalar, float>(),
                 tmpArr->at(1).data<d_scalar, float>(),
                 tmpArr->size() > 2 ? tmpArr->at(2).data<d_scalar, float>() : 0
             };
-            if (!arr->check_type(runtime, t_scalar(), 2, 3))
-            {
-                return {};
-            }
         }
         else
         {
@@ -182,6 +183,7 @@ namespace
             runtime.__logmsg(err::ReturningEmptyString(runtime.context_active().current_frame().diag_info_from_position()));
             return "";
         }
+        runtime.storage<sqf::operators::markers_storage>().set(name, {});
         auto& marker = runtime.storage<sqf::operators::markers_storage>().at(name);
         marker.set_pos(pos);
         return name;
